@@ -19,6 +19,7 @@ KF_SD_TYPES = ["Underdamped", "CP29"]
 UNITS = ["int", "1/cm", "eV", "meV", "THz", "1/fs", "Ha"]
 ENERGY_KEYS = ("reorg", "freq", "gamma")
 RT = 1e-11
+AXGROUP = {0: 0, 1: 0, 2: 2, 3: 3}
 
 
 class Entry:
@@ -83,7 +84,7 @@ class World:
         kind = "sd" if (sdrun and rng.random() < 0.7) else "cf"
         types = (CF_TYPES if kind == "cf" else SD_TYPES) + ((KF_CF_TYPES if kind == "cf" else KF_SD_TYPES) if kf else [])
         return {"op": "new", "kind": kind, "type": rng.randrange(len(types)) if not kf else rng.randrange(len(types)),
-                "unit": rng.randrange(len(UNITS)), "axis": rng.choice([0, 0, 0, 1, 2]), "T": rng.choice([0, 0, 0, 1]),
+                "unit": rng.randrange(len(UNITS)), "axis": rng.choice([0, 0, 0, 0, 1, 1, 2, 3]), "T": rng.choice([0, 0, 0, 1]),
                 "reorg": round(rng.uniform(5, 100), 3), "cortime": round(rng.uniform(30, 300), 2),
                 "freq": round(rng.uniform(100, 800), 2), "gamma": round(rng.uniform(5, 50), 3),
                 "matsubara": rng.choice([None, 5, 20]), "template": rng.random() < 0.25}
@@ -128,7 +129,8 @@ class Runner:
         self.kf = program["kf_zone"]
         n = program["naxis"]
         # axes 0 and 1 are different objects with equal values, axis 2 differs
-        self.axes = [qr.TimeAxis(0.0, n, 1.0), qr.TimeAxis(0.0, n, 1.0), qr.TimeAxis(0.0, n // 2, 2.0)]
+        # the same length with another step: only the library's own axis comparison can tell it apart
+        self.axes = [qr.TimeAxis(0.0, n, 1.0), qr.TimeAxis(0.0, n, 1.0), qr.TimeAxis(0.0, n // 2, 2.0), qr.TimeAxis(0.0, n, 2.0)]
         self.pool = []
         self.fresh = {}
         self.good_adds = 0
@@ -155,7 +157,7 @@ class Runner:
         lamb = 0.0
         for c in e.comps:
             if c[0] == "spec":
-                d, l = self.fresh_component(e.kind, 0 if e.axis in (0, 1) else 2, c[1])
+                d, l = self.fresh_component(e.kind, AXGROUP[e.axis], c[1])
             else:
                 d, l = c[1], c[2]
             tot = d.copy() if tot is None else tot + d
@@ -257,7 +259,7 @@ class Runner:
     def _do_add(self, i, a, b, inplace, unit=None):
         qr = self.qr
         A, B = self.pool[a], self.pool[b]
-        same_axis = (A.axis in (0, 1)) == (B.axis in (0, 1))
+        same_axis = AXGROUP[A.axis] == AXGROUP[B.axis]
         same_T = (A.kind != "cf") or (A.T == B.T)
         expect_refusal = (not same_axis) or (not same_T)
         u = None if unit is None else UNITS[unit % len(UNITS)]
@@ -353,7 +355,7 @@ class Runner:
         if b is None or b == a:
             return
         A, B = self.pool[a], self.pool[b]
-        same_axis = (A.axis in (0, 1)) == (B.axis in (0, 1))
+        same_axis = AXGROUP[A.axis] == AXGROUP[B.axis]
         same_T = (A.kind != "cf") or (A.T == B.T)
         try:
             A.real.add_to_data(B.real)
